@@ -44,6 +44,8 @@ def sig(block):
 
 def real_blocks(files=None, limit_files=None, dedupe=True, min_opt=2):
     """distinct real blocks with at least min_opt optimizable instructions"""
+    if common.replay_file():
+        return []
     files = files or example_files()
     if limit_files:
         files = files[:limit_files]
@@ -78,6 +80,8 @@ def sample(items, n, seed):
 
 
 def hand_blocks():
+    if common.replay_file():
+        return common.replay_blocks()
     p = os.path.join(common.VERIF, "corpus", "hand_blocks.txt")
     out = []
     with open(p) as f:
